@@ -162,11 +162,13 @@ def run(chk: Check) -> None:
         ok = len(regs) == 1 and len(dels) == 1 and all(is_fut(fs) for _, fs in uf.site_facts(regs[0])) and all(not_fut(fs) for _, fs in uf.site_facts(dels[0]))
     chk.ob('FUT-unwrap', un, ok, 'a result that is itself a future is unwrapped further; anything else is delivered as is', kind='nested-followed')
     od = prog.func('communications.plum_to_kiwi_future.on_done')
-    conv = [n for n in ast.walk(od.node) if isinstance(n, ast.If) and 'isinstance(result' in norm(n.test) and 'Future' in norm(n.test)]
-    ok = bool(conv) and any(isinstance(s, ast.Assign) and norm(s.targets[0]) == 'result' and isinstance(s.value, ast.Call)
-                            and last_name(s.value) == 'plum_to_kiwi_future' for s in conv[0].body)
+    rvs = [norm(n.targets[0]) for n in ast.walk(od.node) if isinstance(n, ast.Assign) and isinstance(n.value, ast.Call) and last_name(n.value) == 'result' and isinstance(n.targets[0], ast.Name)]
+    rv2 = rvs[0] if len(rvs) == 1 else 'result'   # the local that holds what the loop future resolved to
+    conv = [n for n in ast.walk(od.node) if isinstance(n, ast.If) and f'isinstance({rv2}' in norm(n.test) and 'Future' in norm(n.test)]
+    ok = bool(conv) and any(isinstance(s, ast.Assign) and norm(s.targets[0]) == rv2 and isinstance(s.value, ast.Call)
+                            and last_name(s.value) == 'plum_to_kiwi_future' and [norm(a) for a in s.value.args] == [rv2] for s in conv[0].body)
     sr = [c for c in calls_in_func(od, 'set_result')]
-    ok = ok and len(sr) == 1 and [norm(a) for a in sr[0].args] == ['result']
+    ok = ok and len(sr) == 1 and [norm(a) for a in sr[0].args] == [rv2]
     chk.ob('FUT-unwrap', od, ok, 'a loop future resolving to a loop future is mirrored recursively, the final value is delivered', kind='nested-converted')
     rc = prog.func('processes.Process._schedule_rpc.run_callback')
     loops = [n for n in ast.walk(rc.node) if isinstance(n, ast.While) and 'isfuture(result)' in norm(n.test)]
